@@ -4,8 +4,8 @@ from common import *
 G = os.path.dirname(os.path.dirname(os.path.abspath(__file__)))
 LEVEL_TEXT = ('bounded model checking of the three statements of Function::codegen that decide static-function wrapping (early exit for internal linkage, should_wrap + its link_name attribute, registration in items_to_serialize), '
               'verbatim, with everything between them symbolic: a static function gets a binding iff it is wrapped, the binding names <name><suffix>, exactly one wrapper is registered, nothing for external linkage')
-OUTSIDE = ['the C text of a wrapper (codegen/serialize.rs: declarators for every type kind) and that it compiles against the headers: needs the real IR and a C compiler', 'behavioural equality of wrapper and wrapped function',
-           'utils::serialize_items (file assembly, include lines): file-system and string code', 'va_list wrappers beyond their registration']
+OUTSIDE = ['the C text of a wrapper beyond the spelling of built-in arithmetic types (codegen/serialize.rs: declarators for pointers, arrays, function pointers, qualifiers) and that it compiles against the headers: needs the real IR and a C compiler', 'behavioural equality of wrapper and wrapped function',
+           'utils::serialize_items beyond the order and number of lines (paths, .c vs .cpp, the text of the lines)', 'va_list wrappers beyond their registration']
 EXPLANATION = ('Each statement is located by its first tokens and brace-matched; the function around them is a stub that passes link_name_attr, canonical_name and the attribute list in. Symbolic: linkage, wrap_static_fns, variadic, '
                'presence of an explicit / mangled link name, the va_list callback answer, all names.')
 
@@ -50,7 +50,55 @@ def build(tier, seed):
         kern.stubs = ['names: (base, suffixed) pairs with `+ suffix`', 'attributes::link_name::<MANGLE>: records the name', 'utils::wrap_as_variadic_fn: symbolic answer', 'Vec: capacity 4']
         kern.bounds = ['one function; all flag combinations']
         return [kern]
+    def spelling():
+        ser = rd('codegen/serialize.rs')
+        ti = extract(ser, r"^impl<'a> CSerialize<'a> for Type \{", what='impl CSerialize for Type')
+        def match_stmt(after_rx, scrut, what):
+            m = re.search(after_rx, ti)
+            if not m:
+                raise SliceError('CSerialize for Type: arm %s not found' % what)
+            m2 = re.compile(r'match %s \{' % scrut).search(ti, m.end())
+            if not m2:
+                raise SliceError('CSerialize for Type: match %s not found in arm %s' % (scrut, what))
+            return ti[m2.start():match_brace(ti, m2.end() - 1)]
+        mi = match_stmt(r'TypeKind::Int\(int_kind\) => \{', 'int_kind', 'Int')
+        mf = match_stmt(r'TypeKind::Float\(float_kind\) => \{', 'float_kind', 'Float')
+        mc = match_stmt(r'TypeKind::Complex\(float_kind\) => \{', 'float_kind', 'Complex')
+        ik = extract_from('ir/int.rs', r'^pub enum IntKind \{')
+        fk = extract_from('ir/ty.rs', r'^pub\(crate\) enum FloatKind \{')
+        h = open(os.path.join(G, 'harness', 'c16_spelling.rs')).read().replace('/*ENUMS*/', ik + '\n' + fk).replace('/*MATCH_INT*/', mi).replace('/*MATCH_FLOAT*/', mf).replace('/*MATCH_COMPLEX*/', mc)
+        kern = Kernel(name='c_spelling')
+        kern.files = {'src/lib.rs': h}
+        kern.harnesses = [H('integer_kinds_are_spelled_as_the_same_c_type', timeout=600, desc='serialize.rs integer table: every IntKind C can spell is written with the ISO C spelling of that very type; the others are refused', sample='all IntKind values'),
+                          H('floating_kinds_are_spelled_as_the_same_c_type', timeout=600, desc='serialize.rs float and complex tables', sample='all FloatKind values')]
+        kern.encoded = [enc('codegen/serialize.rs', 'CSerialize for Type: match int_kind', mi), enc('codegen/serialize.rs', 'CSerialize for Type: match float_kind (Float)', mf), enc('codegen/serialize.rs', 'CSerialize for Type: match float_kind (Complex)', mc),
+                        enc('ir/int.rs', 'enum IntKind', ik), enc('ir/ty.rs', 'enum FloatKind', fk)]
+        kern.stubs = ['write!(writer, "lit"): records the literal', 'CodegenError / get_loc / format!: units']
+        kern.bounds = ['finite tables: exhaustive']
+        return kern
+    ks = []
     try:
-        return k()
+        ks += k()
     except SliceError as e:
-        return [Kernel(name='wrapper_bookkeeping', error='slice-failed: %s' % e)]
+        ks.append(Kernel(name='wrapper_bookkeeping', error='slice-failed: %s' % e))
+    ks.append(kernel_or_error('c_spelling', spelling))
+    def wfile():
+        mod = rd('codegen/mod.rs')
+        si = extract(mod, r'^    pub\(super\) fn serialize_items\(', what='utils::serialize_items')
+        a = si.find('let mut code = Vec::new();')
+        b = si.find('std::fs::write(source_path, code)')
+        if a < 0 or b < 0 or b < a:
+            raise SliceError('serialize_items: assembly region not found')
+        region = si[a:b]
+        if 'item.serialize(' not in region or '#include' not in region:
+            raise SliceError('serialize_items: assembly region changed shape')
+        h = open(os.path.join(G, 'harness', 'c16_file.rs')).read().replace('/*ASSEMBLY*/', region)
+        kern = Kernel(name='wrapper_file')
+        kern.files = {'src/lib.rs': h}
+        kern.harnesses = [H('wrapper_file_includes_every_header_then_one_wrapper_per_item', timeout=600, desc='serialize_items assembly: one #include per input header, all before the wrappers; exactly one wrapper per registered item, in order', sample='0..3 headers, 0..1 inline contents, 1..3 registered items')]
+        kern.encoded = [enc('codegen/mod.rs', 'utils::serialize_items (from `let mut code` to the final write)', region)]
+        kern.stubs = ['writeln!: one arm per literal format string, records the kind of line', 'Item::serialize: records a wrapper line for the item', 'Vec::new() = line buffer']
+        kern.bounds = ['<= 3 headers, <= 1 inline contents, <= 3 registered items']
+        return kern
+    ks.append(kernel_or_error('wrapper_file', wfile))
+    return ks
